@@ -116,6 +116,24 @@ CLAIMED = {
          'determinism of the real translation is sampled, not proved; GIL atomicity of attribute assignment is assumed. One genuine defect found '
          'by this check and fixed (af4502b: stale entry cell across workbooks).',
     technique='Coq proof (state-machine invariant; schedule-indexed invariant for the two-thread system) + trace correspondence', ref='6/C09'),
+ 'C01': dict(
+    text='Coq theorems over a model of the operator path (token-set parser over the grammar table regenerated from the live classes, a Gallina '
+         'transcription of ExpressionTokenTranslator/OperandTokenTranslator/LiteralToken producing the emitted text as structured juxtaposition, '
+         'Python\'s own precedence regrouping of that text, the runtime operators) against an independent Excel-side reader (precedence climbing: '
+         '% > sign > * / > + - > & > comparisons, left-associative) and evaluator: kernel-exhaustive — for ALL 1 111 110 token sequences of length '
+         '<= 6 over {atom + - * / & < % ( )} every sequence Excel reads as a formula is grouped as Excel groups it, or lies in one of three '
+         'listed defect classes of the emitter, or is one of the two rejected percent forms; unbounded — a blank behaves as the integer 0 under '
+         '+ - * / and sign against every value, the operators on doubles are the same IEEE operation as Excel\'s for all doubles, a literal with a '
+         'fraction or negative exponent is the correctly rounded double of its decimal text for every digit string (after fix 5e1cf08); grids for '
+         'integer arithmetic and integer literals; kernel-computed witnesses for every known finding. Correspondence: for every case the emitted '
+         'code is parsed with Python\'s ast and compared node by node with the model\'s tree, the value with the model\'s value and with the '
+         'Excel-side value: all sequences of length <= 3 (thorough 5), all well-formed formulas of length <= 6 (thorough 7), a bracket-nesting '
+         'family, random formulas of depth <= 4 with cells (int, float, text, boolean, blank) from the workbook and from overrides.',
+    note='Partial: the grouping theorem is bounded (length 6) — an unbounded agreement proof of the two precedence parsers was not completed; '
+         'the Excel side is silent on number->text of fractions, numeric-text spellings other than plain digits, integers beyond 2^53 and '
+         'mixed-kind comparisons (C10 decides comparisons). Ten known findings (unary sign scope, comparison/& left operand, percent forms, ...). '
+         'One genuine defect fixed (5e1cf08 literal rebuild).',
+    technique='regenerated grammar table + Coq kernel-exhaustive sweep lifted by a membership lemma + Coq proofs (case analysis) + vm_compute correspondence on ast trees and values', ref='6/C01'),
  'C07': dict(
     text='Unbounded Coq theorems: repr(text) is, for EVERY byte string, exactly one Python string literal denoting the text, and whatever follows '
          'it in the module is read after it (confinement); text constants and sheet titles are emitted through repr; for a cell ="<text>" with ANY '
